@@ -50,6 +50,7 @@ class Check:
         self.assumptions = []
         self.notes = []
         self._distinct = set()
+        self.write_evidence = True  # False for --replay runs
 
     # ------------------------------------------------------------------ TLC accounting
     def add_tlc(self, res: tlc.TLCResult, part: str | None = None):
@@ -131,8 +132,9 @@ class Check:
             ev["coverage"]["notes"] = self.notes
         if not ev["coverage"]["samples"]:
             ev["coverage"]["samples"] = ["(no sample recorded)"]
-        with open(os.path.join(EVIDENCE, f"{self.pid}.json"), "w") as fh:
-            json.dump(ev, fh, indent=1, default=str)
+        if self.write_evidence:
+            with open(os.path.join(EVIDENCE, f"{self.pid}.json"), "w") as fh:
+                json.dump(ev, fh, indent=1, default=str)
         print(
             f"{self.pid} {self.tier}: states={self.cov['states']} transitions={self.cov['transitions']} "
             f"validated={self.cov['traces_validated_against_impl']} evaluations={self.cov['evaluations']} "
